@@ -79,8 +79,10 @@ def verify(repo, con, schema, callee_contracts=(), loop_specs=None, spec_funcs=N
             # vacuity canary: `False` under the hypotheses of the first ensures-obligation must NOT be provable
             ens = [o for o in obligations if o.kind.startswith("ensures")]
             if ens:
-                o = ens[0]
-                covers.append(("canary-false-not-provable[%s]" % con.qual, list(o.hyps)))
+                # hypotheses at the first and at the last post-condition obligation (i.e. after every callee contract
+                # has been assumed): an inconsistent callee contract / frame would make everything after it vacuous
+                for tag, o in (("first", ens[0]), ("last", ens[-1])):
+                    covers.append(("canary-false-not-provable[%s,%s]" % (con.qual, tag), list(o.hyps)))
     except Unsupported as e:
         rep.error = str(e)
     rep.symexec_s = time.time() - t0
